@@ -63,7 +63,7 @@ def gen(tier, rng):
     # the complete NAL (implementation only, judged by big_check)
     from vlib.annexb_util import big_scripts
     for sc in big_scripts(rng, tier):
-        if "|" in sc:
+        if "|" in sc and ",D" not in sc:
             cases.append("!annexbig A " + sc)
     # one NAL growing through ~80 deliveries to 40 MB (thorough 150 MB): every partial view is a prefix (C08.long_histories)
     from vlib.props import C08
